@@ -36,6 +36,7 @@ class Ctx:
             "utf8": lambda s: s.encode("utf8"),
             "valid_utf8": _valid_utf8,
             "wit": lambda x: True,
+            "_priv": _priv,
             "all_in": lambda c, f: all(f(x) for x in list(c)),
             "joined": lambda f, n: b"".join(bytes(f(k)) for k in range(n)),
         }
@@ -136,7 +137,23 @@ class Ctx:
         return eval(compile(tree, "<contract>", "eval"), env, {})
 
 
+def _priv(obj, name):
+    """self.__x written in a contract: resolve the name-mangled attribute on the object's class hierarchy"""
+    for klass in type(obj).__mro__:
+        mangled = f"_{klass.__name__.lstrip('_')}{name}"
+        if hasattr(obj, mangled):
+            return getattr(obj, mangled)
+    return getattr(obj, name)
+
+
 class _Lazy(ast.NodeTransformer):
+    def visit_Attribute(self, node):
+        self.generic_visit(node)
+        if node.attr.startswith("__") and not node.attr.endswith("__") and isinstance(node.ctx, ast.Load):
+            return ast.copy_location(ast.Call(func=ast.Name(id="_priv", ctx=ast.Load()),
+                                              args=[node.value, ast.Constant(node.attr)], keywords=[]), node)
+        return node
+
     """implies(a, b) / ite(c, a, b) evaluate their operands lazily, as the logical reading does."""
 
     def visit_Call(self, node):
